@@ -23,11 +23,24 @@ for id in $IDS; do
   cls=$(echo "$out" | grep -o 'class=[a-z_0-9]*' | sort -u | tr '\n' ' ')
   t1=$(date +%s)
   if echo "$out" | grep -q '^VIOLATION'; then verdict=CAUGHT; else verdict=MISSED; fi
-  echo "$id $verdict $cls ($((t1-t0))s)"
-  /venv/bin/python - "$id" "$prop" "$verdict" "$cls" "$((t1-t0))" "$ALT" <<'PY'
+  # the minimised replay file of the first violation must reproduce it in a fresh process
+  # (same class, identical event digest) against the same changed tree
+  replay=""
+  if [ $verdict = CAUGHT ] && [ -z "$MUT_NO_REPLAY" ]; then
+    rf=$(echo "$out" | grep -o 'replay=[^ ]*' | head -1 | cut -d= -f2)
+    if [ -n "$rf" ] && [ -f "$rf" ]; then
+      rout=$(VERIF_REPO=$WT VERIF_OUT=$ALT ./check replay $rf 2>/dev/null | grep -E 'digest_identical|REPLAY-DIVERGED' | head -1)
+      case "$rout" in *digest_identical=True*) replay=identical;; *digest_identical=False*) replay=same_class_other_digest;; *) replay=diverged;; esac
+    else replay=no_file; fi
+    rm -rf $ALT/replays
+  fi
+  echo "$id $verdict $cls ($((t1-t0))s) replay=$replay"
+  /venv/bin/python - "$id" "$prop" "$verdict" "$cls" "$((t1-t0))" "$ALT" "$replay" <<'PY'
 import json,sys
-i,prop,verdict,cls,sec,alt=sys.argv[1:7]
-json.dump({"id":i,"check":f"./check {prop} quick","result":verdict,"violation_classes":cls.split(),"seconds":int(sec)},open(f"{alt}/{i}.json","w"))
+i,prop,verdict,cls,sec,alt,replay=sys.argv[1:8]
+d={"id":i,"check":f"./check {prop} quick","result":verdict,"violation_classes":cls.split(),"seconds":int(sec)}
+if replay: d["replay_in_fresh_process"]=replay
+json.dump(d,open(f"{alt}/{i}.json","w"))
 PY
 done
 /venv/bin/python - "$ALT" "$(git -C /repo rev-parse --short HEAD)" "$DIR" <<'PY'
